@@ -544,6 +544,9 @@ class PolygonTensor(PolytopeTensor):
             o = Point(*[0] * self.dim)
             if e.free_indices > 0:
                 ind = ~e.contains(o)
+                # work on a copy: the assignment below must not modify the cached supporting planes
+                e = e.copy()
+                e.array = e.array.copy()
                 e[ind] = cast(PlaneTensor, e[ind]).parallel(o)
             elif not e.contains(o):
                 # use parallel hyperplane for projection to avoid rescaling
